@@ -36,6 +36,15 @@ func newNamer() *namer {
 		unique:                  make(map[string]int),
 		keywords:                make(map[string]struct{}),
 		keywordsCaseInsensitive: make(map[string]struct{}),
+		// prefixes of the names the writer synthesises from user names outside
+		// the namer: struct/array constructors, matCx2 accessors and the
+		// entry point interface structs
+		reservedPrefixes: []string{
+			"Construct", "GetMat", "SetMat",
+			"VertexInput_", "VertexOutput_",
+			"FragmentInput_", "FragmentOutput_",
+			"ComputeInput_", "ComputeOutput_",
+		},
 	}
 
 	// Register HLSL keywords (case-sensitive, matching Rust naga's KeywordSet)
